@@ -22,7 +22,7 @@ const UNRELATED: &[&str] = &["README.txt", "firmware/kernel.gz.bak", "app8/updat
 fn request(id: Option<u8>, off: Option<u32>, with_file: bool, with_tlv: bool) -> Vec<u8> {
     fp::RequestForData {
         tlv: if with_tlv {
-            Some(ft::WriteData { file: if with_file { Some(ft::File { file_id: id, file_offset: off, file_size: None, payload: None }) } else { None } })
+            Some(ft::WriteData { file: if with_file { Some(ft::File { file_id: id, file_offset: off, ..ft::File::default() }) } else { None } })
         } else {
             None
         },
